@@ -253,15 +253,18 @@ func (l *parkLogger) Warn(msg string, a ...any) {
 
 // newReq builds the request of `start <id> [cancelled]`; "cancelled": the client has already gone (context cancelled) —
 // the breaker must treat it like any other request.
-func newReq(f []string) *http.Request {
+type flightKey struct{}
+
+func newReq(f []string, fl *flight) *http.Request {
 	req := httptest.NewRequest(http.MethodGet, "http://backend/", nil)
 	req.Header.Set("X-Id", f[1])
+	ctx := context.WithValue(req.Context(), flightKey{}, fl)
 	if len(f) == 3 && f[2] == "cancelled" {
-		ctx, cancel := context.WithCancel(req.Context())
+		var cancel context.CancelFunc
+		ctx, cancel = context.WithCancel(ctx)
 		cancel()
-		req = req.WithContext(ctx)
 	}
-	return req
+	return req.WithContext(ctx)
 }
 
 func newFlight() *flight {
@@ -351,7 +354,8 @@ func (s *h) quiesce() string {
 }
 
 func (s *h) next(w http.ResponseWriter, r *http.Request) {
-	fl := s.flights[r.Header.Get("X-Id")]
+	// the flight travels in the request context: the handler must not read s.flights, which the op goroutine mutates
+	fl := r.Context().Value(flightKey{}).(*flight)
 	fl.entered <- struct{}{}
 	code := <-fl.release
 	if fl.info != 0 {
@@ -416,7 +420,7 @@ func (s *h) op(f []string, line *string) string {
 		if s.parkedID != "" {
 			// a second arrival while the first is parked in the breaker's Warn
 			s.parking = nil
-			req := newReq(f)
+			req := newReq(f, fl)
 			go func() {
 				defer close(fl.done)
 				s.cb.ServeHTTP(fl.rec, req)
@@ -454,7 +458,7 @@ func (s *h) op(f []string, line *string) string {
 			s.prevState = s.state()
 			return "unparked " + ra + " then " + rb + " " + s.prevState + q
 		}
-		req := newReq(f)
+		req := newReq(f, fl)
 		go func() {
 			defer close(fl.done)
 			s.cb.ServeHTTP(fl.rec, req)
@@ -507,8 +511,7 @@ func (s *h) op(f []string, line *string) string {
 			id := fmt.Sprintf("~%d", s.nBurst)
 			fl := newFlight()
 			s.flights[id] = fl
-			req := httptest.NewRequest(http.MethodGet, "http://backend/", nil)
-			req.Header.Set("X-Id", id)
+			req := newReq([]string{"start", id}, fl)
 			go func() {
 				defer close(fl.done)
 				s.cb.ServeHTTP(fl.rec, req)
